@@ -43,10 +43,11 @@ var (
 )
 
 func (s Scaler) remapMinMax(min, max int64) (float64, float64) {
+	fmin, fmax := float64(min), float64(max)
 	if max <= min {
-		max = min + 1
+		fmax = fmin + 1 // as float: min + 1 overflows for min == MaxInt64
 	}
-	return math.Floor(s.mapVal(float64(min))), math.Ceil(s.mapVal(float64(max)))
+	return math.Floor(s.mapVal(fmin)), math.Ceil(s.mapVal(fmax))
 }
 
 // Returns a val, between min and max, to a 0-1 float range
